@@ -17,8 +17,8 @@ from harness.common import *
 import re, struct
 
 FUNCTIONAL = True
-LEVEL_TEXT = ("Lean theorems: for every mutator the transcribed code path (ALG: _validate_slice, _insert/_overwrite/_delete, _ror_msb0/_rol_msb0 as slice+delete+insert, reverse's two branches, the set/invert loops and set's range fast path, _setitem_int/_setitem_slice, _replace's collect-and-rebuild, byteswap's pattern loop over _reversebytes, _ilshift/_irshift, _imul) equals a one-line list expression (SPEC) for all contents and arguments outside six decidable known-deviation regions; frame (bits outside [start,end) unchanged) and length theorems per range operation; partial-prefix theorems for set/invert over iterables; rol/ror inverse, reverse and byteswap involutive; replace returns the number of selected matches; run_eq over arbitrary operation histories by induction. Correspondence: exhaustive single-operation sweeps on small contents x argument tuples in and beyond range + random histories of 1-12 operations on BitArray/BitStream.")
-LEVEL_NOTE = ("Trusted: Lean kernel (+propext, Classical.choice, Quot.sound); bitarray's C item/slice assignment and deletion are modelled as Python list semantics and its search as 'all occurrences' (tied by the correspondence and by the oracle, which uses CPython lists); the struct-format grammar of byteswap is a shared definition of SPEC and ALG; BitStream positions are out of scope (C06). The known deviations of the current tree are transcribed in ALG and excluded from the equalities by named regions (see known_findings.d/C03.json).")
+LEVEL_TEXT = ("Lean theorems: for every mutator the transcribed code path (ALG: _validate_slice, _insert/_overwrite/_delete, _ror_msb0/_rol_msb0 as slice+delete+insert, reverse's two branches, the set/invert loops and set's range fast path, _setitem_int/_setitem_slice, _replace's collect-and-rebuild, byteswap's pattern loop over _reversebytes, _ilshift/_irshift, _imul) equals a one-line list expression (SPEC) for all contents and arguments, with no side condition; frame (bits outside [start,end) unchanged) and length theorems per range operation; partial-prefix theorems for set/invert over iterables; rol/ror inverse, reverse and byteswap involutive; replace returns the number of selected matches; run_eq over arbitrary operation histories by induction. Correspondence: exhaustive single-operation sweeps on small contents x argument tuples in and beyond range + random histories of 1-12 operations on BitArray/BitStream.")
+LEVEL_NOTE = ("Trusted: Lean kernel (+propext, Classical.choice, Quot.sound); bitarray's C item/slice assignment and deletion are modelled as Python list semantics and its search as 'all occurrences' (tied by the correspondence and by the oracle, which uses CPython lists); the struct-format grammar of byteswap is a shared definition of SPEC and ALG; BitStream positions are out of scope (C06). Eight deviations found while building were fixed in /repo (known_findings.d/C03.json, status fixed); their witnesses run on every check.")
 TECHNIQUE = "Lean 4 proof (ALG = SPEC per mutator, frame/length/involution lemmas, induction over histories) + exhaustive small-domain and random-history correspondence"
 NOT_YET_PROVED = []
 
@@ -438,73 +438,6 @@ def oracle(line, out, extra):
     return None
 
 
-# ------------------------------------------------------------------------------------------------ known-deviation regions
-def _dev_step(prev: str, tok: str):
-    """Name of the known-deviation region the step lies in (same names as the Lean predicates), or None."""
-    t, n = _canon_op(tok).split(" "), len(prev)
-    op = t[0]
-    opbits = lambda x: prev if _strip_kind(x) == "@" else unwire(_strip_kind(x))
-
-    def valid_range(s, e):
-        try:
-            return _vrange(n, s, e)
-        except _Err:
-            return None
-
-    def valid_pos(p):
-        try:
-            return _ipos(n, p)
-        except _Err:
-            return None
-    if op in ("insert", "overwrite"):
-        if len(opbits(t[1])) == 0 and valid_pos(int(t[2])) is None:
-            return "emptyOperandBadPos"
-    if op == "set":
-        if t[2] == "None" and n == 0:
-            return "setAllEmpty"
-        if t[2].startswith("r:"):
-            a, b, c = _ints(t[2][2:])
-            if c != 0 and _range_as_slice_differs(n, a, b, c):
-                return "setRangeAsSlice"
-    if op == "setslice" and t[4].startswith("i:"):
-        a, b, c = _opt(t[1]), _opt(t[2]), _opt(t[3])
-        if c == -1 and len(range(*slice(a, b, 1).indices(n))) != len(range(*slice(a, b, -1).indices(n))):
-            return "setSliceIntNegStep"
-        if c not in (None, 0, 1, -1):
-            s0, e0, st = slice(a, b, c).indices(n)
-            if _range_as_slice_differs(n, s0, e0, st):
-                return "setSliceIntStepRegion"
-    if op == "byteswap" and t[4] == "0":
-        r = valid_range(_opt(t[2]), _opt(t[3]))
-        if r is not None:
-            try:
-                total = 8 * sum(_sizes(_fmtarg(t[1]), *r))
-            except _Err:
-                return None
-            if total != 0 and r[1] < r[0] + total:
-                return "byteswapNoRepeatPastEnd"
-    return None
-
-
-def _range_as_slice_differs(n, a, b, c):
-    ps = list(range(a, b, c))
-    if not all(-n <= p < n for p in ps):
-        return True
-    return list(range(*slice(a, b, c).indices(n))) != [p + n if p < 0 else p for p in ps]
-
-
-def _region(name):
-    def pred(line):
-        out, _ = execute(line)
-        return any(_dev_step(prev, tok) == name for prev, tok, _ob in _steps(line, out))
-    return pred
-
-
-REGIONS = {name: _region(name) for name in (
-    "byteswapNoRepeatPastEnd", "setRangeAsSlice", "setSliceIntNegStep",
-    "setSliceIntStepRegion", "setAllEmpty", "emptyOperandBadPos")}
-
-
 def nontrivial(line):
     f = line.split(SEP)
     return len(f) > 3
@@ -689,15 +622,12 @@ def _rand_op(rng, cur):
     return "clear"
 
 
-def _history(rng, cls, init, nops, keep_dev=0.08):
+def _history(rng, cls, init, nops):
     """A random history; the content is tracked with the reference so that arguments are chosen relative to the
-    current length.  Steps inside a known-deviation region are kept only with probability keep_dev."""
+    current length."""
     cur, ops = init, []
     for _ in range(nops):
-        for _try in range(20):
-            tok = _rand_op(rng, cur)
-            if _dev_step(cur, tok) is None or rng.random() < keep_dev:
-                break
+        tok = _rand_op(rng, cur)
         ops.append(tok)
         cur = unwire(_expected(cur, tok).split(":", 1)[1])
         if len(cur) > 3000:
@@ -862,7 +792,7 @@ def gen(rng, tier):
         init = rand_bits(rng, n)
         nops = rng.randint(1, 12) if n <= 65 else rng.randint(1, 5)
         yield _history(rng, pick_cls(), init, nops)
-    # ---- 7. single random operations with the full argument classes (deviation regions included)
+    # ---- 7. single random operations with the full argument classes (every argument class)
     for i in range(200000 if big else 6000):
         n = rng.choice([0, 1, 2, 3, 5, 8, 9, 13, 16, 17, 24, 31, 32, 33, 40])
         init = rand_bits(rng, n)
